@@ -1,10 +1,13 @@
 PROP = {
     "id": "C41",
     "theorem_modules": ["Verif.Properties.C41"],
-    "min_theorems": 7,
+    "min_theorems": 10,
     "required_theorems": [
         "Verif.Properties.C41.reencode_erase",
         "Verif.Properties.C41.roundtrip_partial",
+        "Verif.Properties.C41.fixed_text_roundtrip",
+        "Verif.Properties.C41.types_roundtrip_partial",
+        "Verif.Properties.C41.roundtrip_embedded_types_partial",
         "Verif.Properties.C41.decode_total",
         "Verif.Properties.C41.simple_types_ok",
     ],
@@ -18,15 +21,17 @@ PROP = {
     "technique": "Lean 4 proof over a code-shaped model of encoding/json (Prepare/PrepareType, Decode on the JSON tree) "
                  "+ correspondence stream on generated values and mutated encodings + fact table from the running decoder",
     "level_text": "Lean theorems about a port of encoding/json/encode.go and decode.go over the external value/type algebra: "
-                  "the erased value re-encodes to the same JSON tree for every value; decode(prepare v) = erase v for scalar "
-                  "values (all integer kinds in range, strings, characters, addresses, paths, nil, void); decimal/hex text "
-                  "round trips; totality of the decoder port. Tie: stream `json` - values and types from a recursive generator "
+                  "the erased value re-encodes to the same JSON tree for every value; decode(prepare v) = erase v for every "
+                  "value built from scalars (all integer and fixed-point kinds in range, strings, characters, addresses, paths, nil, void) with "
+                  "optionals, arrays, dictionaries, ranges and composite values at any nesting, and for type values / "
+                  "capabilities whose type has no composite types (types_roundtrip for such types); decimal/hex text round "
+                  "trips; totality of the decoder port. Tie: stream `json` - values and types from a recursive generator "
                   "(all value kinds except attachments; all type kinds incl. repeated composite types in one type value): Go "
                   "json.Encode parsed to a tree = prepare v, Go json.Decode = model decode = erase v, re-encoding identical; "
                   "JSON-structure mutations of encodings (same verdict and value as the model) and byte-level mutations "
                   "(value or error, no escaping panic, no hang).",
-    "level_note": "Partial: the round trip of containers, composites and embedded types is correspondence-checked, not yet a "
-                  "theorem. Outside the model (SKIP): characters of several code points (grapheme segmentation), type IDs of "
+    "level_note": "Partial: the round trip of functions and of embedded types containing composite / "
+                  "interface / intersection / function types or entitlements is correspondence-checked, not yet a theorem. Outside the model (SKIP): characters of several code points (grapheme segmentation), type IDs of "
                   "shapes other than A.<addr>.<names> / S.<name>.<names> (common.DecodeTypeID belongs to C45), JSON numbers "
                   "that are not natural-number literals. Known findings: attachments cannot be decoded; a composite type that "
                   "repeats a field type in an initializer cannot be decoded. Trusted: Lean kernel; the hand-written ports "
